@@ -230,6 +230,20 @@ def run(tier):
         sc = {"meta": meta, "sql": "SELECT id, %s + %s AS full FROM stream" % (ca, cb), "rows": rows, "chan": False, "norename": True, "noretype": True}
         if i % 2: sc["mode"] = "sync"
         scen.append(sc)
+    # SELECT DISTINCT on a non-aggregate query: there is no batch to deduplicate - every row's result is a function of that row and the
+    # query alone, also when an earlier row projected to the same columns
+    for i in range(40 if quick else 1500):
+        cols = rng.choice([["g"], ["g", "w"], ["w", "g"]])
+        where = rng.choice([None, {"t": "cmp", "op": ">", "a": col("w"), "b": exprgen.num(0)}])
+        rows = [{"id": j + 1, "g": rng.choice(["p", "q"]), "w": rng.choice([0, 1, 1, 2])} for j in range(rng.choice([6, 9, 12]))]
+        meta = {"fam": "direct", "star": 0, "chan": 0, "sel": [{"al": c, "e": col(c)} for c in cols], "profile": "distinct"}
+        txt = "SELECT DISTINCT %s FROM stream" % ", ".join(cols)
+        if where:
+            meta["where"] = where
+            txt += " WHERE " + exprgen.sql(where)
+        sc = {"meta": meta, "sql": txt, "rows": rows, "chan": False}
+        if i % 2: sc["mode"] = "sync"
+        scen.append(sc)
     seqfam.run_scenarios(res, scen, "TraceDirect", tag="direct", relayout_p=0.3, retype_p=0.3, rename_p=0.3)
     seqfam.run_pinned(res, "TraceDirect")
     path_stage(res, rng, quick)
